@@ -289,6 +289,17 @@ def H_regular(s, Ta, Tb, points=41):
     return smooth(lo, hi) and smooth(Tb - 2.5, Tb + 2.5)
 
 
+def mass_view_ok(s, phases):
+    """the array behind the stream's mass view (`stream.imass.data`, what a weight-basis reaction reads and writes) is its
+    molar array times MW, position by position in the stream's own chemical order.  Relative tolerance 1e-9 of the largest
+    entry; no absolute floor is needed: the view computes the same product n·MW."""
+    import numpy as np
+    m = np.asarray(s.imass.data.to_array(), float)
+    ref = np.asarray(s.imol.data.to_array(), float) * np.asarray(s.chemicals.MW, float)
+    top = max(float(np.abs(ref).max(initial=0.0)), float(np.abs(m).max(initial=0.0)))
+    return bool((np.abs(m - ref) <= 1e-9 * top).all()), m.tolist(), ref.tolist()
+
+
 def real_heat(entry, s):
     """Σ_k (real dH_k)·(reactant amount reaction k sees), and the same with the independent formation-only and
     latent-only coefficients, stepping the real constituent reactions (normal call path) on a copy of the stream.
@@ -666,6 +677,11 @@ def run_impl(case: Case) -> ImplResult:
                 if T1 != T0 or P1 != P0 or ph1 != ph0:
                     fail('not-isothermal',
                          f'rxn(stream) changed the thermal state of the stream: T {T0} → {T1}, P {P0} → {P1}, phase {ph0} → {ph1}')
+                ok_, m_, ref_ = mass_view_ok(s, phases)
+                if not ok_:
+                    fail('mass-view-stale-after-reaction',
+                         f'after rxn(stream) stream.imass shows {m_} but its molar flows times MW are {ref_}: a later weight-basis '
+                         f'reaction (or any mass-based reading) acts on flows the stream does not have')
                 peek(s, t, tags)        # another memoised property read between the reaction and the enthalpy reads
                 try:
                     H1, Hf1, Hnet1 = float(s.H), float(s.Hf), float(s.Hnet)
